@@ -276,6 +276,7 @@ def run_check(pid, tier, seed):
     unit_info = {}
     bounded = []
     needs_twin, want_cex = [], []
+    standin_harnesses = []
     twins = props.get("_twins", {})
     # ---- E1 Verus
     for unit in P.get("units", []):
@@ -336,7 +337,10 @@ def run_check(pid, tier, seed):
                     samples.append({"obligation": "%s/%s" % (unit, rec.qname), "source": ent["file"],
                                     "contract": re.sub(r"\s+", " ", rec.clauses[0][1])[:400]})
             else:
-                ent["status"] = "assumed (see kani stand-ins)"
+                sl = props.get("_standins", {}).get("%s/%s" % (unit, rec.qname), [])
+                ent["status"] = "assumed in Verus" + ("; bounded Kani stand-in: " + ", ".join(h["harness"] for h in sl) if sl else "; no stand-in")
+                for h in sl:
+                    standin_harnesses.append(h)
             fns.append(ent)
             for f in fl:
                 violations.append(f)
@@ -354,7 +358,12 @@ def run_check(pid, tier, seed):
                                 "solver_us": v.get("time_us", 0), "status": "discharged" if ok else "undecided",
                                 "role": "property-level lemma over the contracts"})
     # ---- E2 Kani
-    harnesses = [h for h in P.get("kani", []) if tier == "thorough" or not h.get("thorough_only")]
+    harnesses = [h for h in P.get("kani", []) + standin_harnesses if tier == "thorough" or not h.get("thorough_only")]
+    uniq, seen_h = [], set()
+    for h in harnesses:
+        if h["harness"] not in seen_h:
+            uniq.append(h); seen_h.add(h["harness"])
+    harnesses = uniq
     have = set(h["harness"] for h in harnesses)
     twin_of = {}
     for (unit, rec) in needs_twin + want_cex:
